@@ -65,6 +65,7 @@ def check(ctx: Ctx) -> None:
     r4(ctx)
     r5(ctx)
     row_sources_sanctioned(ctx)
+    parsers_keep_every_entry(ctx)
 
 
 ROW_SOURCE_OWNERS: Dict[str, str] = {
@@ -107,6 +108,70 @@ def row_sources_sanctioned(ctx: Ctx, rid: str = "C14.R6") -> None:
             ctx.ob(rid, f, f"{what} site", n, ok, (f"sanctioned: {reasons[0]}" if ok else
                    "rows are produced outside the verifying readers: altered bytes are returned as rows, and whatever this function "
                    "does about a missing file is not the readers' raise"), text=what)
+
+
+def parsers_keep_every_entry(ctx: Ctx, rid: str = "C14.R7") -> None:
+    ctx.rule(rid, "the manifest parsers drop no entry: in every decoding loop (Avro and JSON stage alike) each iteration reaches "
+             "the append of the record object it built, to the list that is returned - no conditional skip, no lost append", 4)
+    for q, cname in (("file_manager.FileManager.read_manifest_file", "DataFile"),
+                     ("file_manager.FileManager.read_manifest_list_file", "ManifestFile")):
+        f = ctx.fn(q)
+        g = ctx.cfg(f)
+        sl = ctx.slicer(f)
+        n_sites = 0
+        def builds(fn_: FunctionInfo, depth: int = 0) -> bool:
+            """every return of fn_ is `cname(...)` (a per-entry decoder extracted into a helper)"""
+            rets_ = [r for r in ast.walk(fn_.node) if isinstance(r, ast.Return)]
+            return bool(rets_) and all(isinstance(r.value, ast.Call) and (dotted(r.value.func) or "").split(".")[-1] == cname for r in rets_)
+
+        ctors = []
+        for n in g.calls():
+            if n.id not in g.reachable() or any(fr.kind == "inline" for fr in n.frames):
+                continue  # statements of a helper analysed in place are represented by the helper's call
+            if n.callee is not None and n.callee.kind == "ctor" and n.callee.cls is not None and n.callee.cls.name == cname:
+                ctors.append(n)
+            elif isinstance(n.ast, ast.Call) and id(n.ast) in g.inlined_calls and builds(g.inlined_calls[id(n.ast)]):
+                ctors.append(n)
+            elif any(builds(t) for t in ctx.eff.callees(f, n)):
+                ctors.append(n)
+        # ... and per-entry decoders called from a comprehension (comprehension bodies are not CFG nodes)
+        comp_calls = [x for cmp_ in ast.walk(f.node) if isinstance(cmp_, (ast.ListComp, ast.GeneratorExp)) for x in ast.walk(cmp_.elt)
+                      if isinstance(x, ast.Call) and ((dotted(x.func) or "").split(".")[-1] == cname or any(
+                          t_.name == (dotted(x.func) or "").split(".")[-1] and builds(t_) for t_ in ctx.prog.functions.values()
+                          if t_.module is f.module and not isinstance(t_.node, ast.Lambda)))]
+        for x in comp_calls:
+            if not any(c.ast is x for c in ctors):
+                comp = next(cmp_ for cmp_ in ast.walk(f.node) if isinstance(cmp_, (ast.ListComp, ast.GeneratorExp)) and any(y is x for y in ast.walk(cmp_.elt)))
+                n_sites += 1
+                ctx.ob(rid, f, f"every decoded {cname} is kept", None, not any(gen.ifs for gen in comp.generators),
+                       "unfiltered comprehension", text=f"{cname}@{n_sites}", line=x.lineno)
+        for c in ctors:
+            loops = [fr.node for fr in c.frames if fr.kind == "loop"]
+            if not loops:
+                # comprehension form: the constructor is the element of an unfiltered comprehension
+                comp = next((x for x in ast.walk(f.node) if isinstance(x, (ast.ListComp, ast.GeneratorExp)) and any(y is c.ast for y in ast.walk(x.elt))), None)
+                n_sites += 1
+                ctx.ob(rid, f, f"every decoded {cname} is kept", c, comp is not None and not any(gen.ifs for gen in comp.generators),
+                       "unfiltered comprehension" if comp is not None else f"a {cname} built outside any decoding loop", text=f"{cname}@{n_sites}")
+                continue
+            lp = next(n for n in g.nodes if n.kind == "loop" and n.ast is loops[-1])
+            body = edge_target(g, lp, "true")
+            apps = [n for n in g.calls() if isinstance(n.ast, ast.Call) and isinstance(n.ast.func, ast.Attribute) and n.ast.func.attr == "append"
+                    and n.ast.args and c.ast in sl.origins(n.ast.args[0], n.id)["calls"]
+                    and any(fr.kind == "loop" and fr.node is lp.ast for fr in n.frames)]
+            n_sites += 1
+            wit = find_path(g, body, [lp.id], avoid=[a.id for a in apps], labels=NORMAL) if body is not None else None
+            # the list appended to is the one returned after the loop
+            lists = {dotted(a.ast.func.value) for a in apps if isinstance(a.ast, ast.Call)}  # type: ignore[union-attr]
+            rets = [r for r in g.nodes if r.kind == "return" and r.id in reachable_from(g, lp.id, NORMAL) and r.ast is not None and r.ast.value is not None]  # type: ignore[union-attr]
+            returned = any(names_in(r.ast.value) & {x for x in lists if x} for r in rets)  # type: ignore[union-attr]
+            ctx.ob(rid, f, f"every decoded {cname} is kept", c, bool(apps) and wit is None and returned,
+                   "each iteration appends the object to the returned list" if apps and wit is None and returned else
+                   ("an iteration can complete without appending the object it decoded (or the list is not the one returned): the "
+                    "reader answers with fewer files than the manifest holds - rows silently missing, and the collector sees their "
+                    "files as unreachable"), witness=ctx.path_witness(f, wit), text=f"{cname}@{n_sites}")
+        if n_sites < 2:
+            raise AnalysisError(f"only {n_sites} decoding site(s) of {cname} found in {q}")
 
 
 def read_path_functions(ctx: Ctx, roots: Optional[List[FunctionInfo]] = None, modules: Tuple[str, ...] = READ_MODULES) -> List[FunctionInfo]:
